@@ -228,3 +228,98 @@ def shortest_path(fx, src, targets, stop=()):
                 prev[c] = x
                 q.append(c)
     return None
+
+
+# ---------------------------------------------------------------- effect signatures (F5)
+
+EFFECT_ADTS = ("interpreter::Interpreter", "interpreter::bytecode_vm::BytecodeVM", "interpreter::bytecode_vm::TrampolineFrame")
+_eff_cache = {}
+
+
+def direct_effects_of_blocks(fx, f, blocks=None):
+    """effects performed by the given blocks of f: field writes, ledger takes, constructions"""
+    import exits as E
+    out = set()
+    calls = set()
+    for bi, bl in enumerate(f.blocks):
+        if blocks is not None and bi not in blocks:
+            continue
+        for s in bl["s"]:
+            if s[0] == "a":
+                for (adt, v, name) in F.place_fields(s[1])[:1]:
+                    if adt in EFFECT_ADTS:
+                        out.add("W %s.%s" % (adt.split("::")[-1], name))
+                rv = s[2]
+                if rv[0] == "agg" and rv[1].get("k") == "adt" and rv[1]["p"] in fx.adts:
+                    out.add("mk %s%s" % (rv[1]["p"].split("::")[-1], ("::" + rv[1]["v"]) if rv[1]["v"] else ""))
+                if rv[0] == "ref" and rv[1] is True:
+                    for (adt, v, name) in F.place_fields(rv[2])[:1]:
+                        if adt in EFFECT_ADTS:
+                            out.add("M %s.%s" % (adt.split("::")[-1], name))
+        t = bl["t"]
+        if t[0] == "call":
+            d = t[1].get("d")
+            if d is None:
+                out.add("call <fn pointer>")
+                continue
+            if d == "std::mem::take" and t[2] and t[2][0][0] in ("c", "m"):
+                fl = E.field_of_ref(f, t[2][0][1][0])
+                if fl:
+                    out.add("take %s.%s" % (fl[0].split("::")[-1], fl[2]))
+            if t[1].get("local"):
+                calls.add(d)
+    return out, calls
+
+
+def transitive_effects(fx):
+    """fn path (closure merged) -> transitive effect set"""
+    key = id(fx)
+    if key in _eff_cache:
+        return _eff_cache[key]
+    direct = {}
+    callees = {}
+    for f in fx.fns.values():
+        e, c = direct_effects_of_blocks(fx, f)
+        direct.setdefault(f.parent, set()).update(e)
+        callees.setdefault(f.parent, set()).update(c)
+    # closures are merged into parents; map closure callee paths to parents
+    par = {p: fn.parent for p, fn in fx.fns.items()}
+    for k in callees:
+        callees[k] = {par.get(c, c) for c in callees[k]}
+    eff = {k: set(v) for k, v in direct.items()}
+    changed = True
+    while changed:
+        changed = False
+        for k, cs in callees.items():
+            e = eff[k]
+            n0 = len(e)
+            for c in cs:
+                if c in eff and c != k:
+                    e |= eff[c]
+            if len(e) != n0:
+                changed = True
+    _eff_cache[key] = eff
+    return eff
+
+
+def region_effects(fx, f, blocks):
+    """effects of a CFG region: direct effects of the blocks plus transitive effects of local callees"""
+    eff = transitive_effects(fx)
+    e, calls = direct_effects_of_blocks(fx, f, blocks)
+    par = {p: fn.parent for p, fn in fx.fns.items()}
+    out = set(e)
+    for c in calls:
+        out |= eff.get(par.get(c, c), set())
+    return out, calls
+
+
+def trace_back(f, local, depth=0):
+    """defining rvalue / call of `local`, seen through single-definition copies and moves"""
+    d = f.defs().get(local, [])
+    if len(d) != 1 or depth > 10:
+        return None
+    bi, si, rv = d[0]
+    if si != "T" and rv[0] == "use" and rv[1][0] in ("c", "m") and not rv[1][1][1]:
+        r = trace_back(f, rv[1][1][0], depth + 1)
+        return r if r is not None else d[0]
+    return d[0]
